@@ -6,6 +6,7 @@
 With petgraph's toposort contract (a permutation of all nodes with every edge forward, or Err(Cycle)) this is the property."""
 import re
 from lib import mir, panics
+from lib.common import AnalysisError
 
 LEVEL = "proof"
 CO = "forc_pkg::pkg::compilation_order"
@@ -130,6 +131,58 @@ def run(rep):
         rep.ob("Rd-order-written-from-compilation_order", f.name, has, f.file, f.lo,
                "BuildPlan is constructed / its compilation_order written in a function that does not call pkg::compilation_order")
     rep.floor("Rd-order-written-from-compilation_order", 2)
+    # ... and it is that very value: moved from the call into the field, never re-ordered or edited on the way
+    adt = F.adts.get("forc_pkg::pkg::BuildPlan")
+    fidx = [i for i, fl in enumerate(adt["variants"][0]["fields"]) if fl["name"] == "compilation_order"] if adt else []
+    if not fidx:
+        raise AnalysisError("C22: field BuildPlan.compilation_order not found in the ADT facts")
+    n_w = 0
+    for f in writers:
+        defs = mir.defs_of(f)
+        for bi, si, st in f.stmts():
+            r = st["r"]
+            if not (r["k"] == "agg" and r.get("adt") == "forc_pkg::pkg::BuildPlan"):
+                continue
+            n_w += 1
+            o = r["o"][fidx[0]]
+            chain = set()
+            ok_root = False
+            for _ in range(12):
+                if "l" not in o:
+                    break
+                chain.add(o["l"])
+                ds = defs.get(o["l"], [])
+                if len(ds) != 1:
+                    break
+                _, _, k, srcs, node = ds[0]
+                if k == "use" and srcs:
+                    o = srcs[0]
+                    continue
+                if k == "call":
+                    fp = node.get("fp", "")
+                    if fp == CO:
+                        ok_root = True
+                        break
+                    if re.search(r"Try(>)?::branch$", fp) and node.get("a"):
+                        o = node["a"][0]
+                        continue
+                break
+            touched = []
+            for bj, sj, s2 in f.stmts():
+                r2 = s2["r"]
+                if r2["k"] == "ref" and r2.get("m") and any("l" in x and x["l"] in chain for x in r2.get("o", [])):
+                    touched.append(s2.get("ln"))
+            for bj, t in f.calls():
+                fp = t.get("fp", "")
+                if fp == CO or re.search(r"Try(>)?::branch$|FromResidual", fp):
+                    continue
+                if any("l" in a and a["l"] in chain and not a.get("p") for a in t.get("a", [])):
+                    touched.append(t.get("ln"))
+            rep.ob("Rd-order-stored-unmodified", f.name, ok_root and not touched, f.file, touched[0] if touched else st.get("ln", f.lo),
+                   ("the value stored in BuildPlan.compilation_order is not the value returned by pkg::compilation_order" if not ok_root else
+                    "the order returned by pkg::compilation_order is mutably borrowed / passed on before it is stored (re-ordered, filtered or extended): "
+                    "the toposort guarantee does not survive an edit of the list"))
+    rep.floor("Rd-order-stored-unmodified", 2, n_w)
     for f in readers:
         bad = [t for _, t in f.calls() if re.search(r"Iterator::rev$|DoubleEndedIterator::(next_back|rfold|rfind)$|<impl \[T\]>::reverse$|Iterator::rposition$",
                                                   t.get("fp", ""))]
